@@ -214,7 +214,12 @@ func c01walks(t *Tree[int], what string) {
 	c01eq(gpre, pre, what+": SlicePreOrder is the pre-order traversal of the same tree")
 	c01eq(gpost, post, what+": SlicePostOrder is the post-order traversal of the same tree")
 	var win, wpre, wpost []int
-	t.WalkInOrder(func(v int) { win = append(win, v) })
+	t.WalkInOrder(func(v int) {
+		win = append(win, v)
+		// read-only re-entrancy from the callback
+		vAssert(t.Contains(v), "the value being visited is found by Contains (called from the walk callback)")
+		vAssert(t.Len() == len(in), "Len called from the walk callback")
+	})
 	t.WalkPreOrder(func(v int) { wpre = append(wpre, v) })
 	t.WalkPostOrder(func(v int) { wpost = append(wpost, v) })
 	c01eq(win, in, what+": WalkInOrder visits the in-order traversal")
